@@ -7,8 +7,8 @@
     plain Z / list terms) returns.
     [run_tab t k dbg a] = the table lookup of Model/Api.v; [wf_args a] = every limb of every argument is a 64-bit word;
     [gtypedb glue2_tbl_ty k a] = the side condition of key k (Proofs/Glue2TablesP.v): "glue2.cmf_serde_de": the
-    MODULUS argument has LIMBS limbs; "glue2.params_ct_eq_lz": the two parameter sets carry one mod_leading_zeros --
-    the condition cannot be dropped ([C15_glue2_params_ct_eq_ignores_lz]); the other 8 keys have no side condition.
+    MODULUS argument has LIMBS limbs; "glue2.params_ct_eq_lz": the two mod_leading_zeros arguments are u32 values (until
+    finding F34 was repaired in /repo d240cb2 the key needed "same mod_leading_zeros"); the other 8 keys have no side condition.
     Statements only; proofs in Proofs/Glue2TablesP.v. *)
 From CB Require Import Model.Limbs Model.Glue2 Proofs.TotalityP Proofs.GlueTablesP Proofs.Glue2TablesP.
 From Coq Require Import ZArith List String.
@@ -27,14 +27,15 @@ Theorem C15_glue2_tables_key_set :
 Proof. exact glue2_key_set. Qed.
 Print Assumptions C15_glue2_tables_key_set.
 
-(** `ConstantTimeEq for MontyParams` does not compare mod_leading_zeros: two parameter sets of the modulus 3 that differ
-    only there (62 and 61) are ct_eq although they are not equal; the derived `==` tells them apart *)
-Theorem C15_glue2_params_ct_eq_ignores_lz :
-  run_tab ops_glue2_model "glue2.params_ct_eq_lz" false [[3]; [62]; [61]] = Val [[1]] /\
+(** `ConstantTimeEq for MontyParams` compares mod_leading_zeros too (repaired code, finding F34): two parameter sets of the
+    modulus 3 that differ only there (62 and 61) are neither ct_eq nor ==; with equal fields they are ct_eq *)
+Theorem C15_glue2_params_ct_eq_sees_lz :
+  run_tab ops_glue2_model "glue2.params_ct_eq_lz" false [[3]; [62]; [61]] = Val [[0]] /\
   run_tab ops_glue2_spec "glue2.params_ct_eq_lz" false [[3]; [62]; [61]] = Val [[0]] /\
-  run_tab ops_glue2_model "glue2.params_eq_lz" false [[3]; [62]; [61]] = Val [[0]].
-Proof. exact params_ct_eq_ignores_lz. Qed.
-Print Assumptions C15_glue2_params_ct_eq_ignores_lz.
+  run_tab ops_glue2_model "glue2.params_eq_lz" false [[3]; [62]; [61]] = Val [[0]] /\
+  run_tab ops_glue2_model "glue2.params_ct_eq_lz" false [[3]; [62]; [62]] = Val [[1]].
+Proof. exact params_ct_eq_sees_lz. Qed.
+Print Assumptions C15_glue2_params_ct_eq_sees_lz.
 
 (** the ConstMontyForm decoder rejects a representative >= MODULUS (MODULUS = 5: 4 decodes, 5 / 6 / 2^64 - 1 are errors) *)
 Theorem C15_glue2_cmf_serde_de_boundary :
